@@ -11,7 +11,10 @@ Inductive obslit :=
   OB (err : bool) (rows : list rowlit) (open oldclosed : bool)
      (cnt : option klit) (ctx : option (klit * bool)) (a b c : list rowlit).
 Inductive stepobs := SO (s : sid) (o : op) (ob : obslit).
-Inductive case := C (steps : list stepobs).
+(* CDdl k: the k-th program of the DDL stream.  Those programs change the catalog, which the model
+   (fixed schema) does not cover: they are checked only by the harness-side oracle
+   (harness/c13/ddl.go), and are listed here so that they are counted, not compared. *)
+Inductive case := C (steps : list stepobs) | CDdl (k : N).
 
 Definition row_of (r : rowlit) : Z * Z := match r with R k v => (k, v) end.
 Definition k_of (k : klit) : counters :=
@@ -45,6 +48,7 @@ Definition obs_list (l : list stepobs) : list obs := map (fun so => match so wit
 Definition case_ok (c : case) : bool :=
   match c with
   | C l => list_eqb obs_eqb (map snd (mtrace minit (steps_of l))) (obs_list l)
+  | CDdl _ => true
   end.
 
 (* for debugging: index of the first step whose observation differs *)
@@ -55,4 +59,7 @@ Fixpoint first_diff (i : N) (a b : list obs) : option N :=
   | _, _ => Some i
   end.
 Definition case_diff (c : case) : option N :=
-  match c with C l => first_diff 0 (map snd (mtrace minit (steps_of l))) (obs_list l) end.
+  match c with
+  | C l => first_diff 0 (map snd (mtrace minit (steps_of l))) (obs_list l)
+  | CDdl _ => None
+  end.
